@@ -716,7 +716,8 @@ static void exec_select(Plan const& p, Report& rep)
             if (x >= 0 && x < 1) vals.push_back(x);
         }
         ld const lo = i ? cum[i - 1] : 0.0L;
-        vals.push_back(round_to(p.nt, 0.5L * (lo + c)));
+        ld const mid = round_to(p.nt, 0.5L * (lo + c));
+        if (mid >= 0 && mid < 1) vals.push_back(mid);
     }
 
     auto check = [&](ld u, u64 sel, char const* how) {
@@ -1064,6 +1065,7 @@ static void exec_protocol(Plan const& p, Report& rep)
     // positive target: first pass with target zero and a user callback that never stops records the
     // cumulative relative errors by an independent implementation
     std::vector<ld> rho;
+    ld unc = 0;
     {
         Plan q = p;
         q.cbk = 1;
@@ -1076,6 +1078,7 @@ static void exec_protocol(Plan const& p, Report& rep)
         RunOut const out = s.run(q.calls, c2);
         if (out.threw || out.killed) return;
         rho = reference_rel_errors(s.w->view());
+        unc = rel_error_uncertainty(s.w->view(), p.nt);
     }
 
     for (ld x : rho)
@@ -1098,7 +1101,11 @@ static void exec_protocol(Plan const& p, Report& rep)
     // unambiguous only if no rho is within rounding of the target
     for (ld x : rho)
     {
-        if (std::fabs(x - target) <= 64 * eps_of(p.nt) * target) return;
+        if (std::fabs(x - target) <= (unc + 64 * eps_of(p.nt)) * std::max(x, target))
+        {
+            rep.probes["target-ambiguous-skipped"]++;
+            return;
+        }
     }
 
     u64 want = rho.size();
